@@ -28,7 +28,7 @@ CHECKS = {
   "(all slice/index expressions incl. f[0]) and its line evaluation goes through matchTags' contract; its block/line structure is compared with go/build/constraint by a bounded stand-in.",
   "assumed: extern contracts for strings.Index/Split/Fields/HasPrefix, bytes.IndexByte/TrimSpace/HasPrefix, unicode.IsLetter/IsDigit (uninterpreted), UTF-8 decoding (uninterpreted runeAt/runeW); "
   "nil tag maps are outside the contracts (requires tags != nil); MatchFile's specification is close to the code (spec-near) except for the OS-selection rule; "
-  "bounded: ShouldBuild vs go/build/constraint over blocks of up to 4 (quick) / 6 (thorough) lines from an 8-line vocabulary and 4 tag sets",
+  "bounded: ShouldBuild vs go/build/constraint over blocks of up to 4 (quick) / 6 (thorough) lines from a 10-line vocabulary (incl. a comment that merely starts with +build and a term with a trailing comma) and 4 tag sets",
   "contract-based deductive verification (VCs over go/ssa incl. a recursive spec function and a rune-iteration invariant, z3/cvc5) plus a labelled bounded stand-in for ShouldBuild's block structure"),
  "C06": ("5 C06",
   "Per-call contracts over a ghost lock state fdMode[descriptor]: filelock.lock returns nil only after a successful flock with the requested type (EINTR retried, failures leave the state unchanged); "
@@ -110,7 +110,7 @@ CHECKS = {
   "on txtar.Quote (it refuses exactly the non-empty data that lacks a final newline or is not valid UTF-8, never returns a wrong result instead; its result is newline-terminated and every line of it starts with '>'; loop invariant, termination) "
   "and the lemma that data whose every line starts with '>' contains no marker line, so a quoted body never needs quoting. "
   "txtar-c's walk function: a file is archived only if regular, not hidden (unless -a) and valid UTF-8; what is stored is the data NeedsQuote was asked about, quoted exactly when it needs quoting and only with -quote, and a quoted file is announced in the comment. "
-  "Unquote(Quote(data)) == data is checked by a BOUNDED stand-in only (generated bodies over a small alphabet incl. '>' and newline).",
+  "Unquote(Quote(data)) == data is checked by a BOUNDED stand-in only (generated bodies over {'>', LF, '-', ' ', 'x', CR}).",
   "assumed: extern contracts for bytes.*, strings.TrimSpace, utf8.Valid (uninterpreted); Unquote (bytes.Replace / TrimPrefix) has no functional contract: bounded only; 'survives Format/Parse unchanged' rests on C03's stand-in; in txtar-c the final-newline normalisation and the relative file name are not specified, os/filepath.Walk is the library's",
   "contract-based deductive verification: VCs over go/ssa with loop invariants and a lemma, call-site obligations and ghost bindings for txtar-c; z3/cvc5; counterexamples replayed with go test -overlay; labelled bounded stand-in for Unquote"),
  "C01": ("5 C01",
